@@ -42,6 +42,7 @@ func c16rbSegs(b []byte) [][2]int {
 }
 
 type c16rbRun struct {
+	global bool // operate on the package's earlyPrintBuffer through Printf / SetOutputSink (the hand-over path)
 	rb     ringBuffer
 	serial int
 	enc    *json.Encoder
@@ -74,6 +75,12 @@ func (r *c16rbRun) write(k int) {
 	}
 	r.serial += k
 	e := c16rbEv{"k": "w", "p": c16rbSegs(p)}
+	if r.global {
+		e["k"] = "pw"
+		r.guard(e, func() { Printf("%s", p) })
+		r.emit(e)
+		return
+	}
 	r.guard(e, func() {
 		n, err := r.rb.Write(p)
 		e["n"], e["err"] = n, err != nil
@@ -88,7 +95,11 @@ func (r *c16rbRun) read(n int) {
 	p := make([]byte, n)
 	e := c16rbEv{"k": "r", "n": n}
 	r.guard(e, func() {
-		got, err := r.rb.Read(p)
+		rb := &r.rb
+		if r.global {
+			rb = &earlyPrintBuffer
+		}
+		got, err := rb.Read(p)
 		if got < 0 || got > n {
 			e["got"], e["eof"], e["bad"] = [][2]int{}, err == io.EOF, got
 			e["k"] = "panic"
@@ -119,6 +130,15 @@ func (s *c16rbSink) Write(p []byte) (int, error) {
 func (r *c16rbRun) drain() {
 	var s c16rbSink
 	e := c16rbEv{"k": "drain"}
+	if r.global { // the hand-over as the kernel does it: the new sink receives the early log
+		r.guard(e, func() {
+			SetOutputSink(&s)
+			SetOutputSink(nil)
+			e["got"] = c16rbSegs(s.b)
+		})
+		r.emit(e)
+		return
+	}
 	r.guard(e, func() {
 		spins := 0
 		src := c16rbReaderFunc(func(p []byte) (int, error) {
@@ -152,13 +172,17 @@ func c16rbOut(t *testing.T) (*json.Encoder, func()) {
 
 // TestVerifC16RingScripts replays $SCRIPTS: {"ops":[["w",k],["r",n],["d",0],...]} per line.
 func TestVerifC16RingScripts(t *testing.T) {
+	enc, done := c16rbOut(t)
+	defer done()
+	c16rbScripts(t, enc, false)
+}
+
+func c16rbScripts(t *testing.T, enc *json.Encoder, global bool) {
 	in, err := os.Open(os.Getenv("SCRIPTS"))
 	if err != nil {
 		t.Fatal(err)
 	}
 	defer in.Close()
-	enc, done := c16rbOut(t)
-	defer done()
 	unit := ringBufferSize / 4 // the model has Size = 4
 	offsets := []int{0, ringBufferSize - 1, ringBufferSize/2 + 3, ringBufferSize - unit}
 	sc := bufio.NewScanner(in)
@@ -169,17 +193,21 @@ func TestVerifC16RingScripts(t *testing.T) {
 			continue
 		}
 		var c struct {
-			Ops  [][2]interface{} `json:"ops"`
-			Var  *int             `json:"var"`
-			Raw  bool             `json:"raw"`  // replay files: lengths are bytes, no prelude, no scaling
-			Base int              `json:"base"` // first payload byte
+			Ops    [][2]interface{} `json:"ops"`
+			Var    *int             `json:"var"`
+			Raw    bool             `json:"raw"`    // replay files: lengths are bytes, no prelude, no scaling
+			Global bool             `json:"global"` // replay files: through Printf / SetOutputSink on the package's early buffer
+			Base   int              `json:"base"`   // first payload byte
 		}
 		if err := json.Unmarshal(sc.Bytes(), &c); err != nil {
 			t.Fatalf("script %d: %v", idx, err)
 		}
 		if c.Raw {
-			run := &c16rbRun{enc: enc, t: t, serial: c.Base}
-			run.emit(c16rbEv{"k": "case", "var": -1, "ops": c.Ops})
+			run := &c16rbRun{enc: enc, t: t, serial: c.Base, global: c.Global || global}
+			if run.global {
+				outputSink, earlyPrintBuffer = nil, ringBuffer{}
+			}
+			run.emit(c16rbEv{"k": "case", "var": -1, "ops": c.Ops, "global": run.global})
 			for _, op := range c.Ops {
 				k := int(op[1].(float64))
 				switch op[0].(string) {
@@ -201,8 +229,11 @@ func TestVerifC16RingScripts(t *testing.T) {
 		}
 		delta := []int{0, 1, -1}[v%3]
 		off := offsets[(v/3)%4]
-		run := &c16rbRun{enc: enc, t: t, serial: (v * 37) % 251}
-		run.emit(c16rbEv{"k": "case", "var": v, "ops": c.Ops})
+		run := &c16rbRun{enc: enc, t: t, serial: (v * 37) % 251, global: global}
+		if global {
+			outputSink, earlyPrintBuffer = nil, ringBuffer{}
+		}
+		run.emit(c16rbEv{"k": "case", "var": v, "ops": c.Ops, "global": global})
 		if off > 0 { // prelude: move both indices to `off` through the public operations
 			run.write(off)
 			run.read(4096)
@@ -266,5 +297,70 @@ func TestVerifC16RingRandom(t *testing.T) {
 		}
 		run.drain()
 		run.emit(c16rbEv{"k": "reset"})
+	}
+}
+
+// TestVerifC16RingHandover exercises the hand-over path of kfmt itself (Printf into the package's early
+// buffer while no sink is set, then SetOutputSink(recorder)): the TLC scripts once more, and early-log
+// volumes EXACTLY at k*size and k*size +- 1 (k = 1..3) for several chunkings and start offsets.
+func TestVerifC16RingHandover(t *testing.T) {
+	enc, done := c16rbOut(t)
+	defer done()
+	defer func() { outputSink, earlyPrintBuffer = nil, ringBuffer{} }()
+	if os.Getenv("SCRIPTS") != "" {
+		c16rbScripts(t, enc, true)
+	}
+	seed, _ := strconv.ParseInt(os.Getenv("VERIF_SEED"), 10, 64)
+	rng := rand.New(rand.NewSource(seed*32452843 + 16))
+	id := 0
+	for k := 1; k <= 3; k++ {
+		for _, d := range []int{0, -1, 1} {
+			for _, off := range []int{0, 1, 1000, ringBufferSize - 1} {
+				for chunking := 0; chunking < 5; chunking++ {
+					outputSink, earlyPrintBuffer = nil, ringBuffer{}
+					run := &c16rbRun{enc: enc, t: t, serial: rng.Intn(251), global: true}
+					run.emit(c16rbEv{"k": "case", "var": id, "global": true, "exact": []int{k, d, off, chunking}})
+					id++
+					if off > 0 { // both indices to off
+						run.write(off)
+						run.drain()
+					}
+					total := k*ringBufferSize - off + d // the write index ends at d (mod size)
+					switch chunking {
+					case 0:
+						run.write(total)
+					case 1:
+						for rest := total; rest > 0; rest -= 512 {
+							if rest < 512 {
+								run.write(rest)
+							} else {
+								run.write(512)
+							}
+						}
+					case 2:
+						run.write(1)
+						run.write(total - 2)
+						run.write(1)
+					case 3:
+						for rest := total; rest > 0; {
+							c := 1 + rng.Intn(700)
+							if c > rest {
+								c = rest
+							}
+							run.write(c)
+							rest -= c
+						}
+					default:
+						run.write(total - 1)
+						run.read(7) // a partial read before the hand-over
+						run.write(1)
+					}
+					run.drain()
+					run.write(10)
+					run.drain()
+					run.emit(c16rbEv{"k": "reset"})
+				}
+			}
+		}
 	}
 }
